@@ -14,11 +14,16 @@
    unique_entries es = uniqueEntries / WrapHashFromArray / Hash.new (index pre-built while compacting)
    hobj_get / hobj_includes_key / hobj_equals = Get / IncludesKey / Equals through the index, with the runtime
    fault of entries[pos] explicit (LFault / None);  hobj_ok h = the index is nil or what valueIndex would build.
-   The other hidden state (lazily cached inferred types, nil optional parts of types) does not exist in the
-   model: for it the clause is checked on the implementation only (harness clauses hidden-state, own-entries). *)
+   The lazily cached inferred types of Array and Hash values (the fields reducedType / detailedType, filled as a
+   side effect of PType / DetailedValueType of the value or of anything that holds it) are explicit state in
+   Model/KeysCache.v:  cval = the object graph, every Array and Hash node with its two cache fields (nil, a type,
+   a type outside the model);  erase x = the denoted value;  cveq / ckey = Equals / ToKey on the object graph,
+   method by method;  refill f g x = the same object with any other content of the caches;  fresh v = the newly
+   built object (all caches nil).  The nil optional parts of types do not exist in the model: for them the clause
+   is checked on the implementation only (harness clauses hidden-state, own-entries). *)
 From Coq Require Import ZArith NArith Bool List.
-From PcoreV Require Import Model.Base Model.Keys Model.KeysIndex Proofs.KeysOrder Proofs.KeysCode Proofs.KeysTypes Proofs.KeysProofs
-  Proofs.KeysIndexProofs.
+From PcoreV Require Import Model.Base Model.Keys Model.KeysIndex Model.KeysCache Proofs.KeysOrder Proofs.KeysCode Proofs.KeysTypes
+  Proofs.KeysProofs Proofs.KeysIndexProofs Proofs.KeysCacheProofs.
 Import ListNotations.
 Open Scope Z_scope.
 
@@ -191,6 +196,53 @@ Proof. exact from_array_equals_direct. Qed.
 Print Assumptions C07_from_array_equals_directly_built.
 
 (* ------------------------------------------------------------------------------------------ *)
+(* Hidden state: the lazily cached inferred types of Array and Hash values (Model/KeysCache.v). *)
+
+(* Equals and ToKey on the object graph answer what they answer on the denoted values, whatever the two cache
+   fields of any node hold (any type at all, not only the one the inference would store) *)
+Theorem C07_equals_independent_of_type_caches : forall x y, cwf x = true -> cwf y = true ->
+  cveq x y = veq (erase x) (erase y).
+Proof. exact cveq_erase. Qed.
+Print Assumptions C07_equals_independent_of_type_caches.
+
+Theorem C07_key_independent_of_type_caches : forall x, ckey x = vkey (erase x).
+Proof. exact ckey_erase. Qed.
+Print Assumptions C07_key_independent_of_type_caches.
+
+(* filling or changing the caches of either operand, in any way, changes neither the answer nor the key:
+   f, g (receiver) and f', g' (argument) give the new content of reducedType / detailedType of every node *)
+Theorem C07_equals_unchanged_by_filling_caches : forall f g f' g' x y, cwf x = true -> cwf y = true ->
+  cveq (refill f g x) (refill f' g' y) = cveq x y /\
+  ckey (refill f g x) = ckey x /\ erase (refill f g x) = erase x /\ cwf (refill f g x) = true.
+Proof.
+  intros f g f' g' x y Hx Hy. repeat split;
+    [now apply cveq_refill | apply ckey_refill | apply erase_refill | now rewrite cwf_refill].
+Qed.
+Print Assumptions C07_equals_unchanged_by_filling_caches.
+
+(* the answer in any cache state is the answer of two newly built objects (all caches nil) *)
+Theorem C07_equals_any_cache_state_is_fresh : forall x y, cwf x = true -> cwf y = true ->
+  cveq x y = cveq (fresh (erase x)) (fresh (erase y)) /\
+  erase (fresh (erase x)) = erase x /\ cwf (fresh (erase x)) = true.
+Proof. intros x y Hx Hy. repeat split; [now apply cveq_any_state_is_fresh | apply erase_fresh | apply cwf_fresh]. Qed.
+Print Assumptions C07_equals_any_cache_state_is_fresh.
+
+(* hence the laws hold on the object graph in every cache state *)
+Theorem C07_laws_in_every_cache_state : forall x y z, cwf x = true -> cwf y = true -> cwf z = true ->
+  wf_value (erase x) = true -> wf_value (erase y) = true -> wf_value (erase z) = true ->
+  cveq x y = cveq y x /\
+  (cveq x y = true -> cveq y z = true -> cveq x z = true) /\
+  (clean (erase x) = true -> clean (erase y) = true -> (ckey x = ckey y <-> cveq x y = true)).
+Proof.
+  intros x y z Hx Hy Hz Wx Wy Wz. repeat split.
+  - now apply cveq_sym.
+  - now apply (cveq_trans x y z).
+  - now apply ckey_iff_cveq.
+  - now apply ckey_iff_cveq.
+Qed.
+Print Assumptions C07_laws_in_every_cache_state.
+
+(* ------------------------------------------------------------------------------------------ *)
 (* Non-vacuity: the hypotheses are satisfiable and the model computes non-trivial cases. *)
 
 Definition ex_a : list N := [97]%N.
@@ -266,3 +318,26 @@ Example C07_ex_bad_index_faults :
               h_index := Some [(vkey (VStr ex_a), 0%nat); (vkey (VStr ex_b), 2%nat); (vkey (VStr ex_c), 3%nat)] |} in
   hobj_get h (VStr ex_b) = LFound (VInt 4) /\ hobj_get h (VStr ex_c) = LFault /\ hobj_equals h h = None.
 Proof. repeat split; vm_compute; reflexivity. Qed.
+
+(* {a=>1, b=>2.5, c=>'x'} with the caches filled (the inferred value type is Scalar) and the equal hash
+   {a=>1, c=>'x', b=>2.5} with the caches filled (ScalarData), nested in arrays whose caches are filled / nil:
+   equal in both directions, same key, equal to the fresh objects; a different value stays different *)
+Definition ex_xs : list N := [120]%N.
+Definition ex_c1 : cval :=
+  CArr (CType (TArray (THash (TEnum false [ex_a; ex_b; ex_c]) (TNullary NScalar) 3 3) 1 1)) CNil
+    [CHash (CType (THash (TEnum false [ex_a; ex_b; ex_c]) (TNullary NScalar) 3 3)) COpaque
+       [(CScalar (VStr ex_a), CScalar (VInt 1)); (CScalar (VStr ex_b), CScalar (VFloat 0x4004000000000000)); (CScalar (VStr ex_c), CScalar (VStr ex_xs))]].
+Definition ex_c2 : cval :=
+  CArr CNil CNil
+    [CHash (CType (THash (TEnum false [ex_a; ex_c; ex_b]) (TNullary NScalarData) 3 3)) CNil
+       [(CScalar (VStr ex_a), CScalar (VInt 1)); (CScalar (VStr ex_c), CScalar (VStr ex_xs)); (CScalar (VStr ex_b), CScalar (VFloat 0x4004000000000000))]].
+Definition ex_c3 : cval :=
+  CArr CNil CNil
+    [CHash (CType (THash (TEnum false [ex_a; ex_b; ex_c]) (TNullary NScalar) 3 3)) CNil
+       [(CScalar (VStr ex_a), CScalar (VInt 1)); (CScalar (VStr ex_b), CScalar (VFloat 0x4004000000000000)); (CScalar (VStr ex_c), CScalar (VStr ex_a))]].
+Example C07_ex_type_caches :
+  cwf ex_c1 = true /\ cwf ex_c2 = true /\ wf_value (erase ex_c1) = true /\ clean (erase ex_c2) = true /\
+  cveq ex_c1 ex_c2 = true /\ cveq ex_c2 ex_c1 = true /\ ckey ex_c1 = ckey ex_c2 /\
+  cveq (fresh (erase ex_c1)) ex_c2 = true /\ ex_c1 <> fresh (erase ex_c1) /\
+  cveq ex_c1 ex_c3 = false /\ cveq ex_c3 ex_c2 = false /\ ckey ex_c1 <> ckey ex_c3.
+Proof. repeat split; try (vm_compute; reflexivity); vm_compute; discriminate. Qed.
